@@ -322,6 +322,12 @@ func (r *Router) AddHandler(
 
 	r.handlersWg.Add(1)
 	r.handlers[handlerName] = newHandler
+	if publisher == nil {
+		// a handler without publisher gets the same stand-in as AddNoPublisherHandler: publisher decorators
+		// are put around every handler's publisher, and around nil they would call Publish and - when the
+		// handler stops - Close on nil (nil pointer dereference in the handler goroutine)
+		newHandler.publisher = disabledPublisher{}
+	}
 
 	select {
 	case r.handlerAdded <- struct{}{}:
